@@ -687,6 +687,31 @@ func authDirected(o authGenOpts) []Case {
 			cases = append(cases, g.Case(fmt.Sprintf("directed:norealm cfg=%d", cfgKind)))
 		}
 	}
+	// 8. two first requests to one host at the same time (different scopes), then one request per scope:
+	// whatever the schedule, the host has one state, both tokens are in it, the follow-ups are cache hits
+	for _, cfgKind := range []int{0, 1, 2, 4} {
+		g := newAuthCaseGen(NewRNG(1), o)
+		g.cfg(0, cfgKind)
+		g.lines = append(g.lines, "auth batch 2")
+		g.verb, g.step = "breq", 0
+		a := mk(0, 0, pull, "")
+		a.reg[0] = regReply{status: 401, hdrs: []string{bearerHdr(realm0, "svc0", pull)}}
+		allTok(a, grantTok("Tpull", 3600))
+		g.add(a)
+		b := mk(0, 0, "repository:bar:pull", "")
+		b.reg[0] = regReply{status: 401, hdrs: []string{bearerHdr(realm0, "svc0", "repository:bar:pull")}}
+		allTok(b, grantTok("Tbar", 3600))
+		g.add(b)
+		g.verb, g.step = "areq", 1
+		g.now = 1
+		c := mk(0, 1, pull, "")
+		allTok(c, grantTok("Uagain1", 3600)) // never needed: the token of the batch covers it
+		g.add(c)
+		d := mk(0, 2, "repository:bar:pull", "")
+		allTok(d, grantTok("Uagain2", 3600))
+		g.add(d)
+		cases = append(cases, g.Case(fmt.Sprintf("directed:concurrent-first-requests cfg=%d", cfgKind)))
+	}
 	// 7. real time: a 1 s token acquired after a long-lived one, used 1.3 s later
 	for _, cfgKind := range []int{0, 2} {
 		g := newAuthCaseGen(NewRNG(1), o)
